@@ -29,8 +29,9 @@ def _conn_init(self, device=None):
 K.Connector.__init__ = _conn_init
 
 from whad.hub import ProtocolHub
-from whad.hub.ble import Direction
-from whad.hub.ble.pdu import BlePduReceived
+from whad.hub.ble import Direction, AdvType
+from whad.hub.ble.bdaddr import BDAddress
+from whad.hub.ble.pdu import BlePduReceived, BleAdvPduReceived
 from whad.hub.ble.connect import Disconnected as BleDisconnected
 from whad.hub.discovery import DomainInfoQueryResp
 from whad.exceptions import WhadDeviceTimeout
@@ -43,6 +44,10 @@ TNAME = {A: "A", W: "W", R: "R", C: "C"}
 
 def mk(fr):
     cls, uid, pkt = fr
+    if cls == 13:
+        # a packet-type message with no scapy counterpart: to_packet() returns None
+        return HUB.ble.create_adv_pdu_received(AdvType.ADV_UNKNOWN, -40, BDAddress("00:11:22:33:44:55"),
+                                               bytes([3, 0xff, uid & 0xff, (uid >> 8) & 0xff]))
     if pkt:
         return HUB.ble.create_pdu_received(Direction.MASTER_TO_SLAVE, b"\x02\x02" + bytes([uid & 0xff, (uid >> 8) & 0xff]), uid & 0xffff)
     if cls == 12:
@@ -55,6 +60,9 @@ def classify(m):
     if isinstance(m, BlePduReceived):
         p = bytes(m.pdu)
         return [0, p[2] | (p[3] << 8), True]
+    if isinstance(m, BleAdvPduReceived):
+        d = bytes(m.adv_data)
+        return [13, d[2] | (d[3] << 8), True]
     if isinstance(m, DomainInfoQueryResp):
         return [m.domain >> 24, m.supported_commands, False]
     if isinstance(m, BleDisconnected):
@@ -70,6 +78,8 @@ def classify_packet(p):
 def keep_for(fc):
     if fc == 0:
         return lambda m: isinstance(m, BlePduReceived)
+    if fc == 13:
+        return lambda m: isinstance(m, BleAdvPduReceived)
     if fc == 12:
         return lambda m: isinstance(m, BleDisconnected)
     return lambda m: isinstance(m, DomainInfoQueryResp) and (m.domain >> 24) == fc
@@ -168,6 +178,7 @@ class RecConn(K.Connector):
         self.delivered = []
         self.delivered_at = []
         self.dispatched = []
+        self.on_packets = []
         self.now = lambda: 0
         super().__init__(dev)
 
@@ -185,10 +196,22 @@ class RecConn(K.Connector):
         pass
 
     def on_packet(self, packet):
-        self.dispatched.append(classify_packet(packet))
+        self.on_packets.append(classify_packet(packet))
 
     def on_event(self, event):
         pass
+
+    def _Connector__process_pkt_message(self, message):
+        """The connector's packet dispatch routine (called by process_message and by unlock()):
+        observed, and made a yield point of the scheduler, from outside the tree."""
+        s = S.cur()
+        if s is not None:
+            s.yield_point("dispatch")
+        self.dispatched.append(classify(message))
+        return _PROCESS_PKT(self, message)
+
+
+_PROCESS_PKT = K.Connector._Connector__process_pkt_message
 
 
 def namer(t):
@@ -370,6 +393,7 @@ def run_case(case, want_labels=False):
     obs = {
         "returned": returned, "retrieved": retrieved,
         "delivered": conn.delivered if conn else [], "dispatched": conn.dispatched if conn else [],
+        "on_packets": conn.on_packets if conn else [],
         "out_q": [classify(m) for m in dev._Device__out_messages.items()],
         "events": ev_items(conn._Connector__events) if conn else [],
         "locked_q": [classify(m) for m in conn._Connector__locked_pdus.items()] if conn else [],
